@@ -365,6 +365,47 @@ def forged_state_hash(ctx, rng, pn, pinfos, R, proot, h):
     ctx.expect_model(f'chkproof {dag_str(mut)} {R} {hx(h)}', lib_verdict_proof(libs[R], h), 'gray:forged-statehash')
 
 
+def truncated_root(ctx, pn, R, proot, h):
+    """the proof root cut to 280-k bits (1 <= k <= 7) where the cut-off tail is 1 0^(k-1): its padded `data` (completion tag!) is byte for
+    byte the data of the genuine 280-bit cell, only the bit length tells them apart"""
+    kind, bits, refs = pn[R]
+    for k in range(1, 8):
+        if len(bits) == 280 and bits[280 - k:] == '1' + '0' * (k - 1):
+            mut = list(pn)
+            mut[R] = (kind, bits[:280 - k], refs)
+            ctx.count('rootcell:truncated-to-tag')
+            run_proof_case(ctx, mut, R, h, 'rej', 'sound:rootcell', f'proof cell of {280 - k} bits whose padded data equals the genuine cell\'s accepted',
+                           mut={'variant': f'truncated {k}'})
+
+
+def kind_twins(ctx, rng):
+    """an unpruned ORDINARY cell whose data looks like an exotic cell's, and the same bits/refs flagged exotic: the two differ only in the
+    descriptor byte d1, so every hash above differs. The honest proof is checked first (same process), then the twin."""
+    db = G.DagBuilder()
+    other = db.add(G.ORD, G.rand_bits(rng, rng.randrange(1, 60)))
+    sub = db.add(G.ORD, G.rand_bits(rng, 17))
+    which = rng.choice(['lib', 'pruned'])
+    if which == 'lib':
+        tbits, tkind = G.bytes_to_bits(bytes([2]) + rng.randbytes(32)), G.LIB
+    else:
+        tbits, tkind = G.pruned_bits(1, [db.infos[sub].H[0]], [db.infos[sub].D[0]]), G.PRUNED
+    x = db.add(G.ORD, tbits)
+    mid = db.add(G.ORD, G.rand_bits(rng, 9), [x, other])
+    root = db.add(G.ORD, G.rand_bits(rng, 33), [mid, other])
+    if not db.ok(root):
+        return
+    h = db.infos[root].H[0]
+    pn = list(db.nodes[:root + 1]) + [(G.MPROOF, G.mproof_bits(db.infos[root]), (root,))]
+    R = len(pn) - 1
+    run_proof_case(ctx, pn, R, h, 'acc', 'complete:check_proof', 'unpruned proof over a tree with an exotic-looking ordinary cell rejected', hdr_idx=root,
+                   hdr_expect='acc', nontrivial=False)
+    mut = list(pn)
+    mut[x] = (tkind, tbits, ())
+    ctx.count('kind-twin:' + which)
+    run_proof_case(ctx, mut, R, h, 'rej', 'sound:kind', f'unpruned ordinary cell replaced by the {which} cell with the same bits accepted', mut={'node': x, 'kind': tkind},
+                   hdr_idx=root, hdr_expect='rej')
+
+
 def generic_streams(ctx, rng):
     n_trees = ctx.n(140, 1400)
     exhaustive_left = ctx.n(10, 60)
@@ -399,6 +440,9 @@ def generic_streams(ctx, rng):
             mutate_bits(ctx, rng, pn, R, proot, h, False, ctx.n(14, 40))
         mutate_refs(ctx, rng, pn, pinfos, R, proot, h, ctx.n(4, 12))
         forged_state_hash(ctx, rng, pn, pinfos, R, proot, h)
+        truncated_root(ctx, pn, R, proot, h)
+        if t % 7 == 0:
+            kind_twins(ctx, rng)
         if t % 3 == 0:
             wrong_hashes(ctx, rng, pn, pinfos, R, proot, h)
         if t % 5 == 0:
